@@ -37,8 +37,7 @@ def reads_target_functions(prog):
     return effect_closure(prog, seeds), seeds
 
 
-def rule_reg_map(ctx):
-    R = "C04/reg-map"
+def rule_reg_map(ctx, R="C04/reg-map"):
     b = ctx.body(R, TI + "::fill_cpu_context")
     if b is None:
         return
@@ -688,6 +687,23 @@ def rule_every_tid_listed(ctx, R="C04/every-tid-listed"):
     reads = [bi for bi, t in b.calls(lambda c: (c.short or "").endswith("fs::read_to_string"))]
     ctx.floor(R, "threads.push(Thread{..})", len(pushes), 1)
     ctx.floor(R, "comm read", len(reads), 1)
+    # `every attachable thread appears`: the tids are the entries of the kernel's own listing of /proc/<pid>/task, walked through the
+    # standard directory iterator until it says None (which re-issues getdents64 until the kernel returns 0) — not until a buffer looked
+    # less than full, a count was reached or a deadline passed
+    from rules.c18 import literal_pieces
+    from engine.paths import conditions as _cond, Exits as _Exits
+
+    def _listing(e):
+        return [q for q in walk(e) if q[0] == "call" and q[1] == "std::fs::read_dir" and sorted(literal_pieces(q[2][0])) == ["/proc/", "/task"] and any(z == ("field", ("param", 1), "pid") for z in walk(q[2][0]))]
+    for bi in pushes:
+        v = strip(o.call_args(bi)[1])
+        tid = dict(v[3]).get("tid") if v[0] == "agg" else None
+        ok = tid is not None and bool(_listing(tid)) and any(q[0] == "call" and q[1].split("::")[-1] == "file_name" for q in walk(tid)) and any(q[0] == "call" and q[1].split("::")[-1] == "next" and _listing(q) for q in walk(tid))
+        ctx.check(ok, R, "tid-from-listing", b.where(bi), "a listed tid is the name of an entry of read_dir(/proc/<pid>/task)", "the tid pushed to the thread list is %s, not the name of an entry handed out by read_dir(/proc/<pid>/task)" % (show(tid)[:120] if tid is not None else show(v)[:120]))
+    for ob in sorted(_Exits(b).ok_blocks()):
+        dnf = _cond(b, ob, origin=o, relevant=lambda a: a[0] == "discr" and any(q[0] == "call" and q[1].split("::")[-1] == "next" for q in walk(a)) and bool(_listing(a)))
+        ok = bool(dnf) and all(any(v == 0 for (_, v) in c) for c in dnf)
+        ctx.check(ok, R, "listing-exhausted", b.where(ob), "enumerate_threads returns Ok only after the directory iterator has said None", "enumerate_threads can return Ok before the listing of /proc/<pid>/task is exhausted: threads further down the listing are never attached nor listed")
     loops = b.loops()
     for rd in reads:
         inner = [h for h, body in loops.items() if rd in body]
@@ -920,3 +936,6 @@ def run(ctx):
     # the stream reaches the caller's file where the directory says, wherever in the destination the dump starts (rules/families.py)
     from rules import families as _famd
     _famd.destination(ctx, "C04")
+    # the small accessors and pass-through wrappers the rules above look through by name return what their names say (rules/accessors.py)
+    from rules import accessors as _acc
+    _acc.rule_accessors(ctx, "C04")
